@@ -121,11 +121,11 @@ for _n, _c in [('time_ts_plus_dur', 't + d is the chrono result or an error when
                     claim=_c, vars=None)
 
 ALL_UNITS = ['value_arith', 'value_cmp', 'value_coll', 'macros', 'preresolved', 'interp', 'interp_vm_g0', 'interp_vm_g1', 'interp_vm_g2', 'interp_vm_g3',
-             'interp_vm_g4', 'interp_vm_g5', 'interp_vm_g6', 'interp_vm_g7', 'builtins', 'wiring', 'parser', 'json', 'compprog', 'parser_expr', 'parser_unary', 'parser_match', 'scanner', 'tokenizer', 'parser_member', 'parser_matchx']
+             'interp_vm_g4', 'interp_vm_g5', 'interp_vm_g6', 'interp_vm_g7', 'builtins', 'wiring', 'parser', 'json', 'compprog', 'parser_expr', 'parser_unary', 'parser_match', 'scanner', 'tokenizer', 'parser_member', 'parser_matchx', 'parser_top', 'balance']
 
 PROPS = {
     'C02': dict(
-        units=['parser', 'parser_expr', 'parser_unary', 'parser_member', 'parser_matchx', 'tokenizer', 'interp_vm_g1', 'interp_vm_g2', 'interp_vm_g3', 'interp_vm_g4'],
+        units=['parser', 'parser_expr', 'parser_unary', 'parser_member', 'parser_matchx', 'tokenizer', 'interp_vm_g1', 'interp_vm_g2', 'interp_vm_g3', 'interp_vm_g4', 'parser_top'],
         assumptions=['the Tokenizer trait is modelled by a ghost token sequence and a cursor (peek does not move, next advances by one)', 'the label counter does not overflow (2^32 labels)'],
         level_text="Every grammar level that has a parse function is proved, for every token sequence, to produce exactly the tree the CEL grammar defines: ?: loosest with a right-nesting else branch, ||, &&, the relations incl. in, + -, * / % (one next-tighter operand followed by a LEFT fold over (operator operand)*, exactly the operator set of the level), runs of ! / - applying to one member expression, postfix .name / (args) / [index] applied left to right, parentheses = the enclosed expression, match = scrutinee { case pattern: expr, ... }; the tokenizer's operator table, keyword table and whitespace skipping; the VM arm contracts fix the operand order. A failed obligation is reported as the violation.",
         not_covered=['that StringTokenizer as a whole refines the ghost token-stream model of the Tokenizer trait (peek does not move, next advances by one, location() = end of the last scanned token): assumed, so whitespace independence is proved only per token (leading whitespace is skipped and is not part of the token)', 'map literals and f-strings (those arms of parse_primary are dropped)', "each unit knows the next lower grammar level by contract only; parse_primary's and parse_match_pattern's results are additionally assumed to be functions of the tokens"],
@@ -139,13 +139,13 @@ PROPS = {
         assumptions=['inputs shorter than 2 GiB (the f-string brace depth counter is an i32)', 'std: from_str_radix / parse::<f64> / char::from_u32 / is_digit(16) / is_ascii_hexdigit / trim_start_matches as specified in the trampolines'],
     ),
     'C17': dict(
-        units=['parser', 'compprog', 'parser_expr', 'parser_unary', 'parser_member', 'parser_matchx'],
+        units=['parser', 'compprog', 'parser_expr', 'parser_unary', 'parser_member', 'parser_matchx', 'parser_top'],
         assumptions=['ProgramDetails::union_from is set union (HashSet, std)'],
         level_text="The identifier set of every node built under contract is proved to be exactly the union of its children's sets plus, for an identifier primary, its own name: add_ident, the compile! sites of the binary levels, append_result / consume_child / from_children*, the ternary (all three operands), match (scrutinee, every pattern, every arm), index expressions, list literals, calls (receiver and every argument) and check_for_const (keeps the set).",
         not_covered=['filter_from_bindings / IdentFilterIter', 'f-string and map-literal arms of parse_primary (dropped arms)', 'variables bound by macros (v in [1].map(v, ..)) are reported as parameters: a superset, allowed by the statement'],
     ),
     'C18': dict(
-        units=['parser', 'parser_expr', 'parser_unary', 'parser_member', 'parser_matchx', 'scanner', 'tokenizer'],
+        units=['parser', 'parser_expr', 'parser_unary', 'parser_member', 'parser_matchx', 'scanner', 'tokenizer', 'parser_top'],
         assumptions=['SourceRange::surrounding is the hull (min of starts, max of ends; derive(Ord) on SourceLocation)'],
         level_text="The span of every node built under contract is proved to be exactly the hull of its operands' / delimiters' spans (binary levels, ternary, unary runs, postfix chain, call, index, parentheses, list literal, match, literals and identifiers = the token span); SourceRange::surrounding is proved to be the smallest containing span (lemmas); a token's span runs from the scanner position after the leading whitespace to the position after its last character; line / column bookkeeping counts characters and resets on newline; tokenizer syntax errors carry the scanner position.",
         not_covered=['re-compiling the spanned text yields the same subtree; sibling disjointness (not stated as lemmas)', "syntax-error locations produced by the parser (only the tokenizer's are under contract)", 'match pattern spans (excluded by the property)', 'that StringTokenizer refines the ghost Tokenizer model'],
@@ -199,7 +199,7 @@ PROPS = {
         assumptions=['ScopedCounter RAII (the increment is undone on scope exit)'],
     ),
     'C10': dict(
-        units=['preresolved', 'interp', 'interp_vm_g0', 'compprog', 'parser_expr', 'parser_unary', 'parser_match', 'parser_member', 'parser_matchx'],
+        units=['preresolved', 'interp', 'interp_vm_g0', 'compprog', 'parser_expr', 'parser_unary', 'parser_match', 'parser_member', 'parser_matchx', 'parser_top', 'balance'],
         assumptions=['HashMap<u32,usize> semantics (vstd)', 'locations[&label] rewritten to *locations.get(&label).unwrap() (std defines Index that way)'],
         not_covered=["a machine-checked lemma that the emitted templates are stack-balanced and satisfy resolve()'s precondition (unique, defined labels) is not stated: the templates themselves are pinned instruction by instruction and labels are proved to come fresh from one counter", 'PreResolvedByteCode::extend / push / FromIterator (generic IntoIterator loops): assumed', 'map literal and f-string code (dropped arms)'],
     ),
@@ -227,7 +227,7 @@ PROPS = {
         assumptions=['sort: the comparator is ord; that slice::sort_by with a total order returns an ordered permutation is std\'s contract (not under contract here)'],
     ),
     'C05': dict(
-        units=['value_cmp', 'value_arith', 'interp_vm_g0', 'interp_vm_g1', 'parser', 'parser_expr', 'parser_match', 'parser_matchx'],
+        units=['value_cmp', 'value_arith', 'interp_vm_g0', 'interp_vm_g1', 'parser', 'parser_expr', 'parser_match', 'parser_matchx', 'balance'],
         assumptions=[],
         not_covered=['the composition "jump template + VM arm contracts => laziness / failure absorption" is not a machine-checked lemma: the templates are pinned instruction by instruction (ternary_code, and_jump / or_jump, cases_code, any_code) and the VM arms are pinned; the argument that these templates are lazy is the doc comment on the spec functions'],
     ),
